@@ -1271,3 +1271,72 @@ Proof.
   assert (Hd : 2 * (icw / 2) <= icw) by (apply Z.mul_div_le; lia).
   destruct (cr_enlarged s); split; try lia; intros; try lia; discriminate.
 Qed.
+
+(* ------------------------------------------------------------------ *)
+(** * Every DATA byte received is credited or pending, whatever the stream state *)
+
+Lemma crecv_data_conservation icw s wire :
+  let s' := crecv_step true icw s (CData wire) in
+  cr_granted s' + cr_acc s' = cr_granted s + cr_acc s + wire /\ cr_consumed s' = cr_consumed s + wire /\
+  cr_enlarged s' = cr_enlarged s.
+Proof.
+  unfold crecv_step, on_data_credit. destruct (icw / 2 <=? cr_acc s + wire); cbn [cr_granted cr_acc cr_consumed cr_enlarged]; repeat split; lia.
+Qed.
+
+Definition enlarged_by (icw : Z) (s : crecv) : Z :=
+  if cr_enlarged s then Z.max 0 (icw - DEFAULT_INITIAL_WINDOW_SIZE) else 0.
+
+Lemma drecv_conservation icw evs : forall s,
+  let s' := fold_left (drecv_step true icw) evs s in
+  cr_granted s' + cr_acc s' - enlarged_by icw s' = cr_granted s + cr_acc s - enlarged_by icw s + sumz (map drev_wire evs) /\
+  cr_consumed s' = cr_consumed s + sumz (map drev_wire evs).
+Proof.
+  induction evs as [|e r IH]; intros s; cbn [fold_left map].
+  - cbn. split; lia.
+  - specialize (IH (drecv_step true icw s e)). cbn zeta in IH. destruct IH as [I1 I2].
+    assert (E : forall a l, sumz (a :: l) = a + sumz l) by reflexivity. rewrite !E.
+    destruct e as [w|w|]; cbn [drecv_step drev_wire] in *.
+    + destruct (crecv_data_conservation icw s w) as (C1 & C2 & C3). unfold enlarged_by in *. rewrite C3 in I1. split; lia.
+    + destruct (crecv_data_conservation icw s w) as (C1 & C2 & C3). unfold enlarged_by in *. rewrite C3 in I1. split; lia.
+    + unfold crecv_step, enlarged_by in *. destruct (cr_enlarged s) eqn:En; cbn [andb cr_granted cr_acc cr_consumed cr_enlarged] in *; rewrite ?En in *; split; lia.
+Qed.
+
+(** a recycled slot starts like a fresh one *)
+Lemma slot_create_fresh s init hist :
+  slotw_step true (fold_left (slotw_step true) hist s) (SwCreate init) = mkslotw init DEFAULT_INITIAL_WINDOW_SIZE.
+Proof. reflexivity. Qed.
+
+(* ------------------------------------------------------------------ *)
+(** * Table-size updates: smallest first, then the final one *)
+
+Lemma last_default_irrel (l : list Z) : forall x d1 d2, List.last (x :: l) d1 = List.last (x :: l) d2.
+Proof.
+  induction l as [|y r IH]; intros x d1 d2; [reflexivity|].
+  change (List.last (x :: y :: r) d1) with (List.last (y :: r) d1).
+  change (List.last (x :: y :: r) d2) with (List.last (y :: r) d2). apply IH.
+Qed.
+
+Lemma tsz_fold vs : forall low last,
+  fold_left (tsz_step true) vs (Some (low, last)) =
+  Some (fold_left Z.min vs low, List.last vs last).
+Proof.
+  induction vs as [|v r IH]; intros low last; cbn [fold_left]; [reflexivity|].
+  cbn [tsz_step]. rewrite IH. f_equal. f_equal. destruct r as [|z r']; [reflexivity|].
+  change (List.last (v :: z :: r') last) with (List.last (z :: r') last). apply last_default_irrel.
+Qed.
+
+Lemma fold_min_le vs : forall a, fold_left Z.min vs a <= a /\ Forall (fun v => fold_left Z.min vs a <= v) vs.
+Proof.
+  induction vs as [|v r IH]; intros a; cbn [fold_left]; [split; [lia|constructor]|].
+  destruct (IH (Z.min a v)) as [H1 H2]. split; [lia|]. constructor; [lia|exact H2].
+Qed.
+
+Lemma fold_min_in vs : forall a, fold_left Z.min vs a = a \/ In (fold_left Z.min vs a) vs.
+Proof.
+  induction vs as [|v r IH]; intros a; cbn [fold_left]; [left; reflexivity|].
+  destruct (IH (Z.min a v)) as [H|H].
+  - destruct (Z.min_spec a v) as [[_ E]|[_ E]].
+    + left. rewrite H. exact E.
+    + right. left. rewrite H. symmetry. exact E.
+  - right. right. exact H.
+Qed.
